@@ -22,7 +22,14 @@ def main(argv=None):
     ap.add_argument("--replay", default=None)
     ap.add_argument("--repo", default=None)
     ap.add_argument("--list", action="store_true")
+    ap.add_argument("--no-evidence", action="store_true", help="scratch analysis of another tree: write evidence/replay files to a temporary directory instead of /verif/evidence")
     a = ap.parse_args(argv)
+    if a.no_evidence:
+        import tempfile
+
+        d = tempfile.mkdtemp(prefix="vcheck-scratch-")
+        report.EVIDENCE_DIR = d
+        report.REPLAY_DIR = os.path.join(d, "replay")
     t0 = time.time()
     prop = a.prop
     if prop not in PROPS:
